@@ -151,6 +151,40 @@ class RngStub:
             self.fstate = f"seed[{s.e if hasattr(s, 'e') else s}]"
             self.k = 0
 
+    # Private generators (np.random.default_rng / RandomState / Generator): allowed to exist, but one created without a
+    # seed draws from OS entropy - options['random_seed'] cannot reach it.  Recorded; C07 obligations read `private`.
+    def _private(self, seed=None, *a, **k):
+        outer = self
+        if not hasattr(self, "private"):
+            self.private = []
+        self.private.append(seed)
+        self.draws.append(("private_generator", seed))
+
+        class _Gen:
+            def normal(s, loc=0.0, scale=1.0, size=None):
+                return outer.normal(loc, scale, size)
+
+            def standard_normal(s, size=None):
+                return outer.normal(0.0, 1.0, size)
+
+            def uniform(s, low=0.0, high=1.0, size=None):
+                return outer.uniform(low, high, size)
+
+            def random(s, size=None):
+                return outer.uniform(0.0, 1.0, size)
+
+            def integers(s, low, high=None, size=None, **kw):
+                return outer.randint(low, high, size)
+
+            randint = integers
+
+            def permutation(s, x):
+                return outer.permutation(x)
+        return _Gen()
+
+    default_rng = _private
+    RandomState = _private
+
     def _arr(self, shape, mk):
         if shape is None or shape == ():
             return mk()
